@@ -203,6 +203,14 @@ func (g *gen) next(s *sim) Op {
 	case "SortMerge", "IsSorted":
 		o.K = r.Intn(6)
 	}
+	if (name == "SortQuick" || name == "SortMerge") && r.Chance(1, 2) {
+		// usability probe after a sort: both ends (PushFront goes through the sentinel), a complete
+		// drain, pushes into the drained list; every step is judged by the plain-slice reference
+		l := o.L
+		g.plan = append(g.plan, mk("PushFront", l, g.val()), mk("Front", l, 0), mk("PushBack", l, g.val()), mk("Back", l, 0),
+			mk("PopFront", l, 0), mk("PopBack", l, 0), lk("Iter", l, 2), mk("PushBack", l, g.val()), mk("PushFront", l, g.val()),
+			mk("Front", l, 0), mk("PopFront", l, 0))
+	}
 	return o
 }
 
